@@ -167,8 +167,148 @@ fn replay_expr(case: &Value) -> Vec<String> {
     problems
 }
 
+// ------------------------------------------------------------------ Part 3: items
+fn item_term(kind: &str) -> Term {
+    use std::collections::{BTreeMap, BTreeSet};
+    match kind {
+        "i1" => builder::int(1),
+        "ineg" => builder::int(-5),
+        "str" => builder::string("ab"),
+        "date" => Term::Date(1577836800),
+        "bytes" => builder::bytes(&[1, 2]),
+        "btrue" => builder::boolean(true),
+        "null" => Term::Null,
+        "set" => { let mut s = BTreeSet::new(); s.insert(builder::int(1)); s.insert(builder::int(2)); Term::Set(s) }
+        "arr" => Term::Array(vec![builder::int(1), builder::string("a")]),
+        "map" => { let mut m = BTreeMap::new(); m.insert(builder::MapKey::Str("k".to_string()), builder::int(1)); Term::Map(m) }
+        o => panic!("term kind {o}"),
+    }
+}
+
+fn item_scopes(sc: &Value) -> Vec<builder::Scope> {
+    sc.as_array().unwrap().iter().map(|x| match x.as_str().unwrap() {
+        "authority" => builder::Scope::Authority,
+        "previous" => builder::Scope::Previous,
+        "KED" => builder::Scope::PublicKey(keys::keypair("PK", "ed").public()),
+        "KP256" => builder::Scope::PublicKey(keys::keypair("PK", "p256").public()),
+        o => panic!("scope {o}"),
+    }).collect()
+}
+
+fn item_queries(it: &Value) -> Vec<Rule> {
+    let x = builder::var("x");
+    let mut qs = vec![Rule::new(builder::pred("query", &[] as &[Term]),
+        vec![builder::pred("f", &[x.clone()]), builder::pred("g", &[item_term(it["t"].as_str().unwrap())])], vec![], item_scopes(&it["sc"]))];
+    if it["alt"].as_bool().unwrap() {
+        qs.push(Rule::new(builder::pred("query", &[] as &[Term]), vec![builder::pred("h", &[x])], vec![], item_scopes(&it["sc2"])));
+    }
+    qs
+}
+
+enum It { F(Fact), R(Rule), C(Check), P(builder::Policy) }
+
+fn replay_item(case: &Value) -> Vec<String> {
+    use biscuit_auth::builder::{AuthorizerBuilder, PolicyKind};
+    let mut problems = Vec::new();
+    let it = &case["item"];
+    let want = case["text"].as_str().unwrap()
+        .replace("KED", &keys::keypair("PK", "ed").public().print())
+        .replace("KP256", &keys::keypair("PK", "p256").public().print());
+    let item = match it["kind"].as_str().unwrap() {
+        "fact" => It::F(builder::fact("f", &[item_term(it["t"].as_str().unwrap())])),
+        "rule" => It::R(Rule::new(builder::pred("r", &[builder::var("x"), item_term(it["t"].as_str().unwrap())]),
+            vec![builder::pred("f", &[builder::var("x")]), builder::pred("g", &[item_term(it["t2"].as_str().unwrap())])], vec![], item_scopes(&it["sc"]))),
+        "check" => It::C(Check { queries: item_queries(it), kind: match it["sub"].as_str().unwrap() { "one" => CheckKind::One, "all" => CheckKind::All, _ => CheckKind::Reject } }),
+        _ => It::P(builder::Policy { queries: item_queries(it), kind: if it["sub"] == "allow" { PolicyKind::Allow } else { PolicyKind::Deny } }),
+    };
+    // printer 1: builder Display, parsed back by the item parser
+    let printed = match &item { It::F(x) => x.to_string(), It::R(x) => x.to_string(), It::C(x) => x.to_string(), It::P(x) => x.to_string() };
+    if squeeze(&printed) != squeeze(&want) {
+        problems.push(format!("builder printer writes {printed:?}, the spec's text is {want:?}"));
+    }
+    let same = match &item {
+        It::F(x) => Fact::try_from(printed.as_str()).map(|y| &y == x).map_err(|e| format!("{e:?}")),
+        It::R(x) => Rule::try_from(printed.as_str()).map(|y| &y == x).map_err(|e| format!("{e:?}")),
+        It::C(x) => Check::try_from(printed.as_str()).map(|y| &y == x).map_err(|e| format!("{e:?}")),
+        It::P(x) => builder::Policy::try_from(printed.as_str()).map(|y| &y == x).map_err(|e| format!("{e:?}")),
+    };
+    match same {
+        Ok(true) => {}
+        Ok(false) => problems.push(format!("builder text {printed:?} parses back to another item")),
+        Err(e) => problems.push(format!("builder text {printed:?} does not parse: {e}")),
+    }
+    // printer 2: the token's block source (symbol table printer), authority block and an appended block
+    let root = keys::keypair("R", "ed");
+    let mk_block = |item: &It| -> Option<BlockBuilder> {
+        match item {
+            It::F(x) => BlockBuilder::new().fact(x.clone()).ok(),
+            It::R(x) => BlockBuilder::new().rule(x.clone()).ok(),
+            It::C(x) => BlockBuilder::new().check(x.clone()).ok(),
+            It::P(_) => None,
+        }
+    };
+    if let Some(bb) = mk_block(&item) {
+        let r: Result<Vec<(usize, String)>, String> = (|| {
+            let e = |e: biscuit_auth::error::Token| format!("{e:?}");
+            let t0 = Biscuit::builder().merge(bb.clone()).build_with_key_pair(&root, SymbolTable::new(), &keys::keypair("K1", "ed")).map_err(e)?;
+            let t1 = Biscuit::builder().code("z(0);").map_err(e)?.build_with_key_pair(&root, SymbolTable::new(), &keys::keypair("K1", "ed")).map_err(e)?
+                .append_with_keypair(&keys::keypair("K2", "ed"), bb.clone()).map_err(e)?;
+            // also after a serialization round trip, and through the unverified reader
+            let t1b = Biscuit::from(t1.to_vec().map_err(e)?, root.public()).map_err(e)?;
+            let u1 = biscuit_auth::UnverifiedBiscuit::from(t1.to_vec().map_err(e)?).map_err(e)?;
+            Ok(vec![(0, t0.print_block_source(0).map_err(e)?), (1, t1.print_block_source(1).map_err(e)?), (1, t1b.print_block_source(1).map_err(e)?),
+                    (1, u1.print_block_source(1).map_err(e)?)])
+        })();
+        match r {
+            Err(e) => problems.push(format!("token path: {e}")),
+            Ok(srcs) => {
+                for (i, src) in srcs {
+                    if !squeeze(&src).contains(&squeeze(&want)) {
+                        problems.push(format!("block {i} source {src:?} does not contain the spec's text {want:?}"));
+                    }
+                    match BlockBuilder::new().code(&src) {
+                        Ok(b2) => {
+                            if b2.facts != bb.facts || b2.rules != bb.rules || b2.checks != bb.checks {
+                                problems.push(format!("block {i} source {src:?} parses back to another block"));
+                            }
+                        }
+                        Err(e) => problems.push(format!("block {i} source {src:?} does not parse: {e:?}")),
+                    }
+                }
+            }
+        }
+    }
+    // printer 3: the authorizer's dump (after the item went through the authorizer's symbol table)
+    let r: Result<(String, String), String> = (|| {
+        let e = |e: biscuit_auth::error::Token| format!("{e:?}");
+        let tok = Biscuit::builder().code("z(0);").map_err(e)?.build_with_key_pair(&root, SymbolTable::new(), &keys::keypair("K1", "ed")).map_err(e)?;
+        let ab = AuthorizerBuilder::new();
+        let ab = match &item {
+            It::F(x) => ab.fact(x.clone()), It::R(x) => ab.rule(x.clone()), It::C(x) => ab.check(x.clone()), It::P(x) => ab.policy(x.clone()),
+        }.map_err(e)?;
+        let a = ab.limits(crate::auth::big_limits()).build(&tok).map_err(e)?;
+        Ok((a.dump_code(), a.print_world()))
+    })();
+    match r {
+        Err(e) => problems.push(format!("authorizer path: {e}")),
+        Ok((dump, world)) => {
+            if !squeeze(&dump).contains(&squeeze(&want)) {
+                problems.push(format!("authorizer dump {dump:?} does not contain the spec's text {want:?}"));
+            }
+            if let Err(e) = AuthorizerBuilder::new().code(&dump) {
+                problems.push(format!("authorizer dump {dump:?} does not parse: {e:?}"));
+            }
+            // the world listing uses the same item syntax for rules and checks
+            if matches!(item, It::R(_) | It::C(_)) && !squeeze(&world).contains(&squeeze(&want)) {
+                problems.push(format!("authorizer world listing does not contain the spec's text {want:?}: {world:?}"));
+            }
+        }
+    }
+    problems
+}
+
 fn replay_case(idx: usize, case: &Value) -> Value {
-    let r = util::catch(|| if case.get("s").is_some() { replay_string(case) } else { replay_expr(case) });
+    let r = util::catch(|| if case.get("s").is_some() { replay_string(case) } else if case.get("item").is_some() { replay_item(case) } else { replay_expr(case) });
     let problems = match r {
         Ok(p) => p,
         Err(p) => vec![format!("PANIC {p}")],
